@@ -53,6 +53,23 @@ H_REL(ge, >=, "<")
 H_REL(lt, <, ">=")
 H_REL(le, <=, ">")
 
+/* operand hygiene: a macro argument is an arbitrary expression.  The operands here have a top-level operator (?:) that binds
+ * looser than every relational operator; the macro must still compare the VALUES of its two operands. */
+#define H_HYG(name, OP, NEG) void h_macro_hyg_##name(void) { \
+  T in_a, in_a2, in_b, in_b2; uint8_t in_ca, in_cb; PRELUDE \
+  expect_##name(in_ca ? in_a : in_a2, in_cb ? in_b : in_b2); uint64_t ln = __LINE__; \
+  T va = in_ca ? in_a : in_a2, vb = in_cb ? in_b : in_b2; \
+  __CPROVER_assert(verif_exc == ((va OP vb) ? EXC_none : EXC_expectation_failed), "expect_" #name "(x ? a : a2, y ? b : b2) throws expectation_failed exactly when !((x ? a : a2) " #OP " (y ? b : b2))"); \
+  SITE_CHECKS(expect_##name, "in_ca ? in_a : in_a2" " " NEG " " "in_cb ? in_b : in_b2") \
+  VERIF_REACH(); }
+
+H_HYG(eq, ==, "!=")
+H_HYG(ne, !=, "==")
+H_HYG(gt, >, "<=")
+H_HYG(ge, >=, "<")
+H_HYG(lt, <, ">=")
+H_HYG(le, <=, ">")
+
 void h_macro_expect(void) {
   T in_a, in_b; PRELUDE
   expect((na++, in_a)); uint64_t ln = __LINE__;
